@@ -10,6 +10,7 @@ mod iters;
 mod geom;
 mod ops;
 mod serde_fam;
+mod conv;
 
 use util::*;
 
@@ -39,6 +40,7 @@ fn main() {
                 16 | 17 => ops::gen_sort(&mut out, prop, tier, &mut rng),
                 18 => serde_fam::gen_c18(&mut out, tier, &mut rng),
                 19 => serde_fam::gen_c19(&mut out, tier, &mut rng),
+                20 => conv::gen_c20(&mut out, tier, &mut rng),
                 8 | 9 | 10 => iters::generate(&mut out, prop, tier, &mut rng),
                 11 => hist::gen_c11_iter(&mut out, tier, &mut rng),
                 12 => hist::gen_c12_drain(&mut out, tier, &mut rng),
@@ -59,7 +61,8 @@ fn main() {
                 match hd[1] {
                     1 | 2 => hist::replay(&mut out, hd[0], hd[1], &inp),
                     3 => iters::replay(&mut out, hd[0], &inp),
-                    4 | 5 => geom::replay(&mut out, hd[1], &inp),
+                    4 | 5 => geom::replay(&mut out, hd[0], hd[1], &inp),
+                    9 => conv::replay(&mut out, &inp),
                     6 => ops::replay(&mut out, hd[0], &inp),
                     7 => serde_fam::replay_doc(&mut out, &inp),
                     8 => serde_fam::replay_roundtrip(&mut out, &inp),
